@@ -173,3 +173,14 @@ def c_vec(v, cplx):
 def c_mat(A, cplx):
     A = np.asarray(A)
     return "[" + "; ".join(c_vec(r, cplx) for r in A) + "]"
+
+
+def sign_near_tie(Vt_rows, rel=1e-12):
+    """the deterministic sign of a mode compares |max| with |min| of its loadings; when the two agree to a few ulps
+    the outcome depends on how the absolute value of a (complex) number is rounded (numpy hypot vs sqrt(re^2+im^2)):
+    such modes have no sign a float model can predict"""
+    for row in np.asarray(Vt_rows):
+        a, b = abs(np.max(row)), abs(np.min(row))
+        if abs(a - b) <= rel * max(a, b, 1e-300):
+            return True
+    return False
